@@ -12,6 +12,7 @@ pub mod malformed;
 pub mod recovery;
 pub mod spectator;
 pub mod synctest;
+pub mod timesync;
 
 use crate::scenario::Scenario;
 use crate::world::{ExecResult, Violation};
@@ -29,6 +30,7 @@ pub fn judge_for(prop: &str) -> JudgeFn {
         "C10" => cutoff::judge,
         "C11" => delay::judge,
         "C12" => lifecycle_check::judge,
+        "C15" => timesync::judge,
         "C16" => builder::misuse_judge,
         "C18" => bounded::judge,
         _ => core::no_judge,
